@@ -40,6 +40,10 @@ def coq_op(o):
         return "(OUBlockMsg %s %s)" % (vlib.z(o[1]), cb(o[2]))
     if n == "uheaders":
         return "(OUHeaders %s)" % hl(o[1])
+    if n == "utx":
+        return "(OUTx %s)" % vlib.z(o[1])
+    if n == "uinv":
+        return "(OUInv %s)" % vlib.z(o[1])
     raise KeyError(n)
 
 
@@ -93,6 +97,7 @@ def gen_case(rng, nops, untrusted=False):
         start = t.main[min(start, len(t.main)) - 1]
     ops = [["version"], ["check"]] if rng.chance(4, 5) else []
     announced = []
+    utx_id = [0]
     nadv = 0
     nprocall = 0
     for _ in range(nops):
@@ -146,7 +151,11 @@ def gen_case(rng, nops, untrusted=False):
         elif k == "version":
             ops.append(["version"])
         else:
-            if rng.chance(1, 2) and (announced or t.parent):
+            c = rng.below(4)
+            if c == 0:
+                utx_id[0] += 1
+                ops.append([rng.choice(["utx", "uinv"]), utx_id[0]])
+            elif c == 1 and (announced or t.parent):
                 ops.append(["ublock", rng.choice(announced[-10:] or list(t.parent)), int(rng.chance(1, 2))])
             else:
                 br = rng.choice(t.branches)
